@@ -134,7 +134,8 @@ class RunA:
         if 'C08' not in self.props and budget > STEP_CAP_OTHER:
             # only C08 judges work; the others just need every call to end
             budget = STEP_CAP_OTHER
-        sample_mem = 'C08' in self.props and (self.n_calls & 7) == 0
+        sample_mem = 'C08' in self.props and (
+            (self.n_calls & 7) == 0 or self.trace.get('mem_all'))
         if sample_mem:
             tracemalloc.start()
         try:
@@ -175,7 +176,7 @@ class RunA:
         if status == 'exc':
             e = val
             if isinstance(e, MemoryError):
-                self.fail('C08', 'memory', ['memory', 'MemoryError'],
+                self.fail('C08', 'memory', ['memory'],
                           'MemoryError decoding %d bytes' % len(buf), buf)
             ce = canon_exc(e)
             self.ev('um', why, len(buf), ce)
